@@ -441,6 +441,32 @@ func runExport(t *testing.T, rc *RunCtx) {
 		}
 		rc.Stats.Inc("legacy_format_runs", 1)
 	}
+	// Sometimes the database also holds a few thousand records of keys this instance has no account for
+	// (validators moved elsewhere): they are part of what an export must state.
+	foreign := map[string]Watermark{}
+	if ch.Pick(10, 0) == 9 {
+		st := inst.Rules.VerifStore()
+		nf := 600 + ch.Pick(2400, 0)
+		for i := 0; i < nf; i++ {
+			kb := make([]byte, 48)
+			copy(kb, h32("foreign key", i, rc.Seed))
+			copy(kb[32:], h32("foreign key tail", i))
+			w := Watermark{Src: int64(i % 7), Tgt: int64(i%7 + 1 + i%3), Slot: int64(i % 11)}
+			if err := st.Store(context.Background(), storeKey(kb, 2), gobBytes(legacyAtt{w.Src, w.Tgt})); err != nil {
+				t.Fatalf("store: %v", err)
+			}
+			if i%5 != 0 {
+				if err := st.Store(context.Background(), storeKey(kb, 3), gobBytes(legacyProp{w.Slot})); err != nil {
+					t.Fatalf("store: %v", err)
+				}
+			} else {
+				w.Slot = -1
+			}
+			foreign[pop.KeyName(kb)] = w
+		}
+		rc.Stats.Inc("runs_with_thousands_of_records", 1)
+		desc = append(desc, fmt.Sprintf("%d foreign keys", nf))
+	}
 	// A history of well-formed requests (some refused); the expectation follows the reference model.
 	model := NewModelState(len(pop.Accts))
 	for k := 0; k < nKeys; k++ {
@@ -511,6 +537,9 @@ func runExport(t *testing.T, rc *RunCtx) {
 		if model.W[k] != NoWatermark {
 			expect[pop.Accts[k].KName] = model.W[k]
 		}
+	}
+	for k, w := range foreign {
+		expect[k] = w
 	}
 	if len(rc.Viol) > 0 {
 		inst.Close()
